@@ -319,8 +319,11 @@ Proof.
       + apply grows_upd_cont; [|intros n x Hx; exact Hx].
         intros b Hbb. cbn. apply dedupN_complete, in_app_iff. left; exact Hbb.
       + intros d Hd. left. exact Hd. }
-  apply inv_create_derived; [apply inv_clear_vals; exact H1|].
-  intros T [HT|HT]; [subst T; split; assumption|]. exact (subs_of_live _ _ _ HT).
+  apply inv_create_derived; [apply inv_discard_items, inv_clear_vals; exact H1|].
+  intros T HT.
+  assert (live_space st T) as [Ha HkT].
+  { destruct HT as [HT|HT]; [subst T; split; assumption|]. exact (subs_of_live _ _ _ HT). }
+  split; [|exact HkT]. rewrite alive_discard_items; [exact Ha|exact HS|exact (live_space_contk _ _ HkT)].
 Qed.
 
 Lemma inv_step_remove_bases : forall st s bs st' o, Inv st -> step_remove_bases st s bs = (st', o) -> Inv st'.
